@@ -95,6 +95,28 @@ def _cases_core(rng, tier):
         yield "path_parse " + sx("m%s0%s1" % (sl, sl)), "separator-lookalike"
     for rt in ["\uff4d", "\uff2d", "\u217f", "\u2133"] + look_.get("m", []) + look_.get("M", []):
         yield "path_parse " + sx(rt + "/0"), "root-lookalike"
+    # LONG spellings of ordinary paths: components padded with leading zeros (2..60 digits: int() reads them), so that
+    # a five-level path is 60, 100, 300 characters long — every component still counts; and a fault placed far behind
+    # the start of such a text (a bad last component, an out-of-range last number) is still a fault
+    for _ in range(10 if tier == "quick" else 300):
+        n = rng.randint(1, 5)
+        ls = _rand_levels(rng, n)
+        pads = [rng.choice([1, 2, 9, 10, 11, 20, 60]) for _ in ls]
+        comps = []
+        for i, pd in zip(ls, pads):
+            c_ = _fmt(i, rng.choice(["'", "h"]))
+            digits = c_.rstrip("'h")
+            comps.append("0" * pd + digits + c_[len(digits):])
+        root = rng.choice(["m", "M"])
+        s = "/".join([root] + comps)
+        yield "path_parse " + sx(s), "zero-padded-long"
+        yield "w_bypath xkey:%s %s" % (sx(XPRV), sx("m" + s[1:])), "zero-padded-long-bypath"
+        bad_last = rng.choice(["x", "4294967296", "2147483648'", "-1", "", "1 ", "7''"])
+        if bad_last == "" and n == 1:
+            bad_last = "x"
+        yield "path_parse " + sx("/".join([root] + comps[:-1] + ["0" * pads[-1] + bad_last]) if bad_last != "" else
+                                 "/".join([root] + comps[:-1] + ["", "1"])), "zero-padded-long-fault-at-end"
+        yield "w_bypath xkey:%s %s" % (sx(XPRV), sx("/".join(["m"] + comps[:-1] + ["0" * 30 + "x"]))), "zero-padded-long-fault-bypath"
     # deep paths (K1)
     for depth in range(6, 13):
         for _ in range(3 if tier == "quick" else 40):
